@@ -38,6 +38,9 @@ CHECKS = {
  "C08": ("exploration", "fuzzing of the real peer reader with an allocation monitor (TotalAlloc delta per announced frame); attacked sessions in child processes with liveness oracles (honest transfer completes, Stats answers, exit status, rain's health check)",
          "Generated byte streams (hostile field values, odd declared lengths, unknown ids, hostile bencoded extension payloads, deep nesting) are fed to the client's reader, followed by a frame header announcing up to 4 GiB with no body: the process may not allocate beyond the configured maximum message size. Sessions in six states (metadata unknown, allocating, verifying, downloading, seeding, stop/start mid-attack) are attacked by 1-3 scripted peers sending grammar-generated frame sequences incl. early-queued have/bitfield mixes, then an oversized header / truncated frame / garbage; an honest peer's transfer must complete with correct files, Stats() must keep answering, the process must not die.",
          "Allocation is measured process-wide in a quiet child (256 KiB slack). The attack grammar is the scripted repertoire; a crash is keyed by normalised panic text and first rain frame.", "4/C08"),
+ "C15": ("exploration", "trace automaton + field equality over raw announces recorded by independent HTTP and UDP trackers (receiver time stamps) and the peer id seen by a scripted peer",
+         "Sessions announce to one HTTP and one UDP reference tracker whose replies are scripted (ok / failure / silence / garbage / flaky, interval and min-interval from {absent,0,-1,-2^31,1,2,2^31-1}) through 1-2 start/stop runs with bursts of manual announces, starting empty or complete. Each recorded announce must carry the torrent's info-hash, the 20-byte peer id the scripted peer saw in the handshake, the listening port, counters that are bounded by the torrent's and monotone; per tracker and run: first event started, completed at most once and only on completion during the run, stopped only after an accepted announce; consecutive event-less announces respect the lower bound.",
+         "Spacing is measured at the receiver: judged only when a gap undercuts the bound by more than 300 ms while the load canary was on time. 'left' is recorded, not judged. Counter order is judged only for announces that arrived more than 300 ms apart.", "4/C15"),
 }
 PENDING = {}
 props = [json.loads(l) for l in open(os.path.join(V, 'properties.jsonl'))]
